@@ -135,6 +135,8 @@ def gen_naming_case(r):
         pk.append(p[:-1] + r.choice(["2", "x", "beta"]))
     elif k < 0.42:
         pk.append(gen_package(r))
+    elif k < 0.45:
+        pk = [p + ".alpha", p + ".apple"] + ([p] if r.random() < 0.3 else [])      # siblings sharing leading letters
     elif k < 0.47:
         pk = [p.replace(r.choice(p), r.choice("AZ_."), 1)]
     elif k < 0.5:
@@ -292,7 +294,7 @@ def run_pure(ctx):
             fcases.append(gen_filename_case(env.rng("C11-fn", rep * 1000 + j), t))
     checks += filename_checks(ctx, fcases)
     checks += build_checks(ctx, [gen_build_case(env.rng("C11-build", i)) for i in range(ctx.n(60, 800))])
-    failing, errors, nfiles = coq.eval_checks("c11pure", IMPORTS, "", checks)
+    failing, errors, nfiles = coq.eval_checks("c11pure", IMPORTS, "", checks, chunk=120)
     ctx.oblige(f"T2 model = implementation on {len(checks)} direct calls of Options.build / Naming.build / _get_filename / API.build "
                f"({nfiles} cases files)", not failing and not errors and len(checks) > 0, "; ".join((failing + errors)[:6]))
     ctx.notes["pure_checks"] = len(checks)
@@ -383,8 +385,16 @@ def gen_request(r, defect=None):
         d = pkg.replace(".", "/")
         stems = (stems + [s for s in FILE_POOL if s not in stems])[:max(2, len(stems))]
         svcs = svcs if len(svcs) >= 2 else r.sample(SVC_POOL, 2)
+    if defect == "siblings":
+        ver = ver or "v1"
+        pkg = ".".join(ns + [name, ver])
+        d = pkg.replace(".", "/")
+        if len(stems) < 2:
+            stems = (stems + [x for x in FILE_POOL if x[1] not in [y[1] for y in stems]])[:2]
     for k, (stem, _) in enumerate(stems):
         p = pkg + "." + sub if (sub and k == len(stems) - 1 and k > 0) else pkg
+        if defect == "siblings":
+            p = pkg + "." + ["alpha", "apple", "alpha"][k % 3]
         if defect == "nested" and k == len(stems) - 1:
             p = pkg + "." + sub + ".deep"
         f = File(f"{p.replace('.', '/')}/{stem}.proto", p, deps=list(apigen.STD_DEPS))
@@ -472,9 +482,16 @@ def reference(case):
     req = apigen.req_from_b64(case["request_b64"])
     tg = [fp for fp in req.proto_file if fp.name in req.file_to_generate]
     pkgs = sorted({fp.package for fp in tg}, key=len)
-    package = pkgs[0]
-    if not all(p == package or p.startswith(package + ".") for p in pkgs):
-        raise ValueError("target files are not in one package tree")
+    common = pkgs[0].split(".")
+    for q in pkgs[1:]:
+        qs = q.split(".")
+        n = 0
+        while n < min(len(common), len(qs)) and common[n] == qs[n]:
+            n += 1
+        common = common[:n]
+    package = ".".join(common)       # the common package of the target files, by segments
+    if not package:
+        raise ValueError("target files share no package")
     segs = package.split(".")
     version = segs[-1] if len(segs) > 1 and re.fullmatch(r"v[0-9]+(p[0-9]+)?((alpha|beta)[0-9]*)?", segs[-1]) else ""
     rest = segs[:-1] if version else segs
@@ -637,10 +654,13 @@ def err_enum(err):
 
 def run_e2e(ctx, cases, tag="c11e2e"):
     jobs = []
+    nstripped = 0
     for c in cases:
         jobs.append((c, None))
-        if any(is_unknown(p) for p in c["params"]):
+        # differential run without the unknown options (quick tier: the first 8 such cases)
+        if any(is_unknown(p) for p in c["params"]) and (ctx.tier != "quick" or nstripped < 8):
             jobs.append((c, [p for p in c["params"] if not is_unknown(p)]))
+            nstripped += 1
     results = gen.pmap(lambda j: gen.run_generator(realise(j[0], j[1])), jobs)
     by = {}
     for (c, ps), r in zip(jobs, results):
@@ -712,7 +732,7 @@ def gen_param(c):
 
 
 def eval_e2e(ctx, checks, tag, ncases):
-    failing, errors, nf = coq.eval_checks(tag, IMPORTS, "", checks)
+    failing, errors, nf = coq.eval_checks(tag, IMPORTS, "", checks, chunk=10)
     ctx.oblige(f"T1 response file names / supported_features / failure kind = model ({len(checks)} comparisons over {ncases} requests)",
                not failing and not errors and len(checks) > 0, "; ".join((failing + errors)[:6]), "T1")
     ctx.notes[f"{tag}_disagreements"] = failing[:20]
@@ -725,8 +745,87 @@ def load_corpus():
     for f in sorted(os.listdir(d)) if os.path.isdir(d) else []:
         if f.endswith(".json"):
             c = json.load(open(os.path.join(d, f)))["case"]
+            if "sequence" in c:
+                continue
             out.append({"request_b64": c["request_b64"], "params": c.get("params") or [], "yaml": c.get("yaml"), "tag": c.get("tag", f)})
     return out
+
+
+def load_corpus_sequences():
+    out = []
+    d = os.path.join(env.VERIF, "corpus", "C11")
+    for f in sorted(os.listdir(d)) if os.path.isdir(d) else []:
+        if f.endswith(".json"):
+            c = json.load(open(os.path.join(d, f)))["case"]
+            if "sequence" in c:
+                out.append({"sequence": c["sequence"], "tag": c.get("tag", f)})
+    return out
+
+
+# ------------------------------------------------------------------ one Generator object serving several APIs
+def make_sequence(tag, i):
+    """2-3 different requests (default templates, no yaml) to be served by ONE Generator instance, one after the other."""
+    r = env.rng(tag, i)
+    seq, roots, want = [], set(), r.choice([2, 3])
+    for j in range(40):
+        if len(seq) == want:
+            break
+        c = make_case(f"{tag}-m{i}", j)
+        if not c or c.get("yaml") or any("templates" in p or opt_key(p) in ("autogen-snippets", "old-naming") or p.count("=") > 1 for p in c["params"]):
+            continue
+        c["params"] = c["params"] + ["autogen-snippets=false"]       # keeps the in-process renders short
+        try:
+            root = reference(c)["root"]
+        except Exception:  # noqa
+            continue
+        if root in roots:
+            continue
+        roots.add(root)
+        seq.append({"request_b64": c["request_b64"], "params": c["params"]})
+    return {"sequence": seq, "tag": f"{tag}#{i}"} if len(seq) >= 2 else None
+
+
+def run_sequences(ctx, seqs):
+    """T2 + oracle: the file set is a function of the request for the Generator as an object too."""
+    from google.protobuf.compiler import plugin_pb2
+    def call(sq):
+        reqs = [apigen.req_b64(realise({"request_b64": m["request_b64"], "params": m["params"], "yaml": None})) for m in sq["sequence"]]
+        try:
+            return gen.impl("c11seq", {"sequences": [reqs]}, timeout=600)[0]
+        except Exception as e:  # noqa
+            return {"error": f"child failed: {e}"[-600:], "shared": [], "fresh": []}
+    checks = []
+    for sq, o in zip(seqs, gen.pmap(call, seqs)):
+        case = {"sequence": sq["sequence"], "tag": sq["tag"]}
+        ctx.case({"sequence": env.canon_hash(case)}, nontrivial=True, feature=[f"generator reuse: {len(sq['sequence'])} APIs through one Generator"])
+        if o.get("error"):
+            ctx.oblige(f"T2 {sq['tag']}: one Generator serves the whole sequence", False, o["error"])
+            continue
+        for k, (m, sh, fr) in enumerate(zip(sq["sequence"], o["shared"], o["fresh"])):
+            c = {"request_b64": m["request_b64"], "params": m["params"], "yaml": None, "tag": f"{sq['tag']}[{k}]"}
+            vcase = dict(case, index=k)
+            if sh["names"] != fr["names"] or sh["features"] != fr["features"]:
+                only_s = [n for n in sh["names"] if n not in set(fr["names"])][:3]
+                only_f = [n for n in fr["names"] if n not in set(sh["names"])][:3]
+                ctx.violation(f"request {k + 1} of a sequence served by ONE Generator object gets other file names than from a fresh Generator: "
+                              f"only with the reused object {only_s}, only with a fresh one {only_f}", vcase)
+            # the property's own sentence on the response of the reused object
+            try:
+                ref = reference(c)
+            except Exception:  # noqa
+                continue
+            res = plugin_pb2.CodeGeneratorResponse(supported_features=sh["features"])
+            for n in sh["names"]:
+                res.file.add(name=n, content="pass\n")
+            oracle(ctx, vcase, res, ref)
+            files, tg = model_inputs(c)
+            lib = [n for n in sh["names"] if not n.startswith("samples/generated_samples/")]
+            checks.append((f"{sq['tag']}[{k}]: names from the reused Generator = model plan",
+                           f"on_ok (generate default_templates {files} {tg} {coq.s(gen_param(c))} false false) "
+                           f"(fun r => response_ok (fst r) {coq.slist(lib)} && Nat.eqb (snd r) {sh['features']})"))
+    return checks
+
+
 
 
 def regen(ctx):
@@ -737,16 +836,22 @@ def regen(ctx):
 def run(ctx):
     run_pure(ctx)
     cases = load_corpus()
-    cases += [c for c in (make_case("C11-e2e", i) for i in range(ctx.n(18, 400))) if c]
+    cases += [c for c in (make_case("C11-e2e", i) for i in range(ctx.n(14, 400))) if c]
     for k, d in enumerate(["eq", "prefixdep", "nested", "subsvc", "dotted"]):
         cases += [c for c in (make_case(f"C11-e2e-{d}", i, d) for i in range(ctx.n(1, 6))) if c]
-    cases += [c for c in (make_case("C11-e2e-ads", i, "ads") for i in range(ctx.n(4, 40))) if c]
+    cases += [c for c in (make_case("C11-e2e-ads", i, "ads") for i in range(ctx.n(3, 40))) if c]
     cases += [c for c in (make_case("C11-e2e-underscore", i, "underscore") for i in range(ctx.n(3, 30))) if c]
     cases += [c for c in (make_case("C11-e2e-nomsg", i, "nomsg") for i in range(ctx.n(3, 30))) if c]
     cases += [c for c in (make_case("C11-e2e-reserved", i, "reserved") for i in range(ctx.n(3, 30))) if c]
     cases += [c for c in (make_case("C11-e2e-casepair", i, "casepair") for i in range(ctx.n(1, 6))) if c]
+    cases += [c for c in (make_case("C11-e2e-siblings", i, "siblings") for i in range(ctx.n(1, 8))) if c]
     checks = run_e2e(ctx, cases)
     eval_e2e(ctx, checks, "c11e2e", len(cases))
+    seqs = load_corpus_sequences() + [q for q in (make_sequence("C11-seq", i) for i in range(ctx.n(2, 24))) if q]
+    schecks = run_sequences(ctx, seqs)
+    failing, errors, nf = coq.eval_checks("c11seq", IMPORTS, "", schecks, chunk=4)
+    ctx.oblige(f"T2 file names of every request of {len(seqs)} sequences served by one Generator object = model plan ({len(schecks)} comparisons)",
+               not failing and not errors and len(schecks) > 0, "; ".join((failing + errors)[:6]))
 
 
 def search(ctx, broken):
@@ -758,6 +863,11 @@ def search(ctx, broken):
 
 def replay(ctx, rep):
     c = rep.get("case", {})
+    if "sequence" in c:
+        schecks = run_sequences(ctx, [{"sequence": c["sequence"], "tag": c.get("tag", "replay")}])
+        failing, errors, nf = coq.eval_checks("c11seqr", IMPORTS, "", schecks)
+        ctx.oblige("T2 replayed sequence: names from the reused Generator = model plan", not failing and not errors, "; ".join((failing + errors)[:6]))
+        return
     if "request_b64" in c:
         case = {"request_b64": c["request_b64"], "params": c.get("params", []), "yaml": c.get("yaml"), "tag": c.get("tag", "replay")}
         checks = run_e2e(ctx, [case], tag="c11replay")
